@@ -602,7 +602,7 @@ Proof.
   destruct (memo_find (memo s) r' l') eqn:F.
   - rewrite SP. auto.
   - destruct (key2 r l r' l') eqn:K.
-    + apply key2_true in K. destruct K; subst r' l'. rewrite (NF eq_refl eq_refl) in SP.
+    + apply key2_true in K. destruct K; subst r' l'. assert (Ff : f = false) by (apply NF; auto). subst f.
       rewrite T in SP. simpl in SP. rewrite orb_true_r in SP. destruct SP as (Hm & _). rewrite Hm. simpl.
       rewrite key2_refl. congruence.
     + destruct (toc_of w l').
@@ -636,7 +636,7 @@ Proof.
     assert (M : memo (pool_use s r0) = memo s) by (unfold pool_use; destruct (pool_find (pool s) r0); auto).
     destruct (count_find (counts (pool_use s r0)) r0 t0); simpl; rewrite M; auto.
   - destruct (release_fixed_shape s r0 t0) as (_ & _ & _ & D & _). unfold clean.
-    destruct D as [D|D]; rewrite D; auto.
+    destruct D as [[D _]|D]; rewrite D; auto.
     rewrite memo_find_del_ref. destruct (Nat.eqb r r0); [congruence|auto].
   - destruct (loadref w s r0 mf) as [s1|] eqn:L; simpl; auto.
     destruct (loadref_same _ _ _ _ _ L) as (_ & M1 & _). unfold clean. rewrite M1. auto.
@@ -702,7 +702,7 @@ Proof.
       unfold f22_filter. apply filter_In. split; [rewrite L0; auto|]. cbn [fst snd].
       destruct (Nat.eqb r r0) eqn:E2; auto. apply Nat.eqb_eq in E2. subst r0.
       unfold rest_counts in RC. rewrite (count_find_none_ref _ _ _ RC) in U. lia.
-    + cbn [fst snd]. unfold key2 in *. rewrite Nat.eqb_sym, (Nat.eqb_sym t0 t). auto.
+    + cbn [fst snd]. unfold key2 in *. rewrite (Nat.eqb_sym r r0), (Nat.eqb_sym t t0). auto.
 Qed.
 
 Lemma step_keeps_used : forall w s o r t,
@@ -734,7 +734,7 @@ Qed.
 Lemma step_keeps_cached : forall w s o r t,
   (forall t0, o <> Release r t0) -> cached s r t = true -> cached (fst (step Fixed w s o)) r t = true.
 Proof.
-  intros w s o r t N C. destruct o; try (apply step_keeps_used; auto; fail); simpl in *.
+  intros w s o r t N C. destruct o; simpl in *.
   - unfold get_layer. destruct (cached s r0 t0); simpl; auto.
     destruct (loadref w s r0 mf) as [s1|] eqn:L; simpl; auto.
     destruct (loadref_same _ _ _ _ _ L) as (L1 & _).
@@ -753,6 +753,8 @@ Proof.
   - destruct (loadref w s r0 mf) as [s1|] eqn:L; simpl; auto.
     destruct (loadref_same _ _ _ _ _ L) as (L1 & _). unfold cached. rewrite L1. auto.
   - destruct (mem l (image w r0)); auto. apply resolve1_cached_mono. auto.
+  - auto.
+  - auto.
 Qed.
 
 Definition not_release_on (r : nat) (o : op) : Prop := forall t0, o <> Release r t0.
@@ -835,4 +837,32 @@ Proof.
       cbn [fst snd] in K2. rewrite E1 in K2. cbn [negb orb] in K2.
       unfold key2 in K. rewrite E1, K2 in K. discriminate.
     + unfold has_ref_memo. rewrite DM. apply has_ref_memo_del.
+Qed.
+
+Lemma memo_find_none_ref : forall ms r l,
+  existsb (fun e : nat * nat * bool => Nat.eqb (fst (fst e)) r) ms = false -> memo_find ms r l = None.
+Proof.
+  induction ms as [|[[a b] ok] tl IH]; simpl; intros r l H; auto.
+  apply orb_false_iff in H. destruct H as [H1 H2].
+  unfold key2. rewrite H1. simpl. auto.
+Qed.
+
+(* the whole clause: after the release of the last use of the image nothing of it is left, and every lookup of a
+   layer of the image succeeds again as soon as the registry answers - whatever was memoised before *)
+Lemma last_release_then_lookup : forall w os r t c,
+  let s := exec Fixed w init os in
+  count_find (counts s) r t = Some c ->
+  let s' := fst (step Fixed w s (Release r t)) in
+  has_ref_counts s' r = false ->
+  has_ref_layers s' r = false /\ has_ref_memo s' r = false
+  /\ forall t2 l mf fl, In l (image w r) -> toc_of w l = Some t2 -> manifest_available s' r mf -> mem l fl = false ->
+       snd (step Fixed w s' (Lookup r t2 mf fl)) = ROk.
+Proof.
+  intros w os r t c s F s' H.
+  destruct (last_release_resets s r t c F H) as [HL HM].
+  split; [exact HL|]. split; [exact HM|].
+  intros t2 l mf fl Hl T MA Hf. simpl.
+  eapply lookup_succeeds; eauto.
+  - unfold s'. apply step_inv. apply reach_inv.
+  - unfold has_ref_memo in HM. fold s'. rewrite (memo_find_none_ref _ _ _ HM). congruence.
 Qed.
